@@ -75,7 +75,7 @@ def classify(run, upto):
 def check(ctx, prop):
     quick = ctx.quick()
     d = T.stage(ctx, DIR, "mc")
-    models = ["MC_ConsoleAuth_quick.cfg"] if quick else ["MC_ConsoleAuth_scaled.cfg", "MC_ConsoleAuth_thorough1.cfg"]
+    models = ["MC_ConsoleAuth_quick.cfg"] if quick else ["MC_ConsoleAuth_scaled.cfg", "MC_ConsoleAuth_thorough.cfg"]
     mcs = []
     for cfg in models:
         mc = T.model_check(ctx, d, "MC_ConsoleAuth.tla", cfg, coverage=(not quick and cfg == models[-1]), timeout=2400, workers=8)
